@@ -15,7 +15,8 @@ use crate::validation::utils::{ValidationError, ValidationErrorContext};
 /// See https://spec.graphql.org/draft/#sec-All-Variables-Used
 pub struct NoUnusedVariables<'a> {
     current_scope: Option<NoUnusedVariablesScope<'a>>,
-    defined_variables: HashMap<Option<&'a str>, HashSet<&'a str>>,
+    defined_variables: HashMap<(usize, Option<&'a str>), HashSet<&'a str>>,
+    operations_count: usize,
     used_variables: HashMap<NoUnusedVariablesScope<'a>, Vec<&'a str>>,
     spreads: HashMap<NoUnusedVariablesScope<'a>, Vec<&'a str>>,
 }
@@ -31,6 +32,7 @@ impl<'a> NoUnusedVariables<'a> {
         Self {
             current_scope: None,
             defined_variables: HashMap::new(),
+            operations_count: 0,
             used_variables: HashMap::new(),
             spreads: HashMap::new(),
         }
@@ -74,7 +76,9 @@ impl<'a> NoUnusedVariables<'a> {
 
 #[derive(Debug, Clone, PartialEq, Eq, Hash)]
 pub enum NoUnusedVariablesScope<'a> {
-    Operation(Option<&'a str>),
+    /// An operation, told apart from the others by its index in the document:
+    /// operation names may be missing or repeated.
+    Operation(usize, Option<&'a str>),
     Fragment(&'a str),
 }
 
@@ -85,9 +89,12 @@ impl<'a> OperationVisitor<'a, ValidationErrorContext> for NoUnusedVariables<'a> 
         _: &mut ValidationErrorContext,
         operation_definition: &'a OperationDefinition,
     ) {
+        let op_index = self.operations_count;
         let op_name = operation_definition.node_name();
-        self.current_scope = Some(NoUnusedVariablesScope::Operation(op_name));
-        self.defined_variables.insert(op_name, HashSet::new());
+        self.operations_count += 1;
+        self.current_scope = Some(NoUnusedVariablesScope::Operation(op_index, op_name));
+        self.defined_variables
+            .insert((op_index, op_name), HashSet::new());
     }
 
     fn enter_fragment_definition(
@@ -119,8 +126,8 @@ impl<'a> OperationVisitor<'a, ValidationErrorContext> for NoUnusedVariables<'a> 
         _: &mut ValidationErrorContext,
         variable_definition: &'a query::VariableDefinition,
     ) {
-        if let Some(NoUnusedVariablesScope::Operation(ref name)) = self.current_scope {
-            if let Some(vars) = self.defined_variables.get_mut(name) {
+        if let Some(NoUnusedVariablesScope::Operation(index, name)) = self.current_scope {
+            if let Some(vars) = self.defined_variables.get_mut(&(index, name)) {
                 vars.insert(&variable_definition.name);
             }
         }
@@ -146,12 +153,12 @@ impl<'a> OperationVisitor<'a, ValidationErrorContext> for NoUnusedVariables<'a> 
         user_context: &mut ValidationErrorContext,
         _: &query::Document,
     ) {
-        for (op_name, def_vars) in &self.defined_variables {
+        for ((op_index, op_name), def_vars) in &self.defined_variables {
             let mut used = HashSet::new();
             let mut visited = HashSet::new();
 
             self.find_used_vars(
-                &NoUnusedVariablesScope::Operation(*op_name),
+                &NoUnusedVariablesScope::Operation(*op_index, *op_name),
                 def_vars,
                 &mut used,
                 &mut visited,
